@@ -564,13 +564,40 @@ func c01Llvm(c *config) {
 		if err != nil {
 			o.Fail("llvm_accepts_output", in.class, "llvm-as rejects the printed module", map[string]string{"name": in.name, "printed": y})
 		} else if strip(cx) != strip(cy) {
+			// up to the renumbering of metadata IDs and the printer's canonical order of top-level definitions
+			// (named metadata are printed in natural order): the token multisets of the two canonical forms
 			a, b := normTokens(cx, nil), normTokens(cy, nil)
 			onlyIn, onlyOut := tokenDiff(a, b)
-			o.Fail("llvm_same_canonical_form", c01DiffClass(onlyIn, onlyOut), "llvm-dis of input and output differ", map[string]interface{}{"name": in.name, "only_in_input": onlyIn[:min(10, len(onlyIn))], "only_in_output": onlyOut[:min(10, len(onlyOut))]})
+			if len(onlyIn)+len(onlyOut) == 0 {
+				o.Pass("llvm_same_canonical_form")
+				o.Stat("llvm_compared.same_up_to_order_and_ids")
+				continue
+			}
+			cls := c01DiffClass(onlyIn, onlyOut)
+			if cls == "" && c01S0xActiveBits(in.src) {
+				cls = "s0x_llvm_reads_active_bits"
+			}
+			o.Fail("llvm_same_canonical_form", cls, "llvm-dis of input and output differ", map[string]interface{}{"name": in.name, "only_in_input": onlyIn[:min(10, len(onlyIn))], "only_in_output": onlyOut[:min(10, len(onlyOut))]})
 		} else {
 			o.Pass("llvm_same_canonical_form")
 		}
 	}
+}
+
+var c01S0xRe = regexp.MustCompile(`\bi(\d+) s0x([0-9A-Fa-f]+)`)
+
+// c01S0xActiveBits: the input holds an s0x literal that LLVM 14 reads differently from the type-width reading:
+// LLVM's lexer truncates the literal to its active bits before sign-extending it, so i4 s0x1 is -1 for LLVM
+// and 1 under the two's-complement-by-type-width reading (C09) the library implements.
+func c01S0xActiveBits(src string) bool {
+	for _, m := range c01S0xRe.FindAllStringSubmatch(src, -1) {
+		w, _ := strconv.Atoi(m[1])
+		v, ok := new(big.Int).SetString(m[2], 16)
+		if ok && v.Sign() > 0 && v.BitLen() < w {
+			return true
+		}
+	}
+	return false
 }
 
 // ---- C03
@@ -587,6 +614,8 @@ func runC03(c *config) {
 	for _, n := range g.names {
 		u.namedStruct(n)
 	}
+	// 0. execution: what the printed text computes under LLVM's lli is what the construction calls imply
+	c03Exec(c, newRng(c.seed, "c03exec"))
 	// 1. every instruction constructor on well-typed operands (the generator of C06), inside a module built
 	//    with the builder API, with named and unnamed values
 	for i := 0; i < 1500*c.scale; i++ {
@@ -680,7 +709,8 @@ func runC03(c *config) {
 		b.NewStore(constant.NewInt(types.I32, 4), a)
 		x := b.NewLoad(types.I32, g)
 		y := b.NewLoad(types.I32, a)
-		b.NewCall(callee)
+		call := b.NewCall(callee)
+		call.AddrSpace = callee.AddrSpace // LLVM wants the address space of the callee spelled on the call
 		b.NewRet(b.NewAdd(x, y))
 		c03Check(c, m, map[string]interface{}{"program": fmt.Sprintf("address space assigned after the constructor, variant %d (0 global, 1 alloca, 2 function)", variant)}, "", false)
 	}
@@ -756,7 +786,7 @@ func c03Check(c *config, m *ir.Module, det map[string]interface{}, class string,
 		o.Fail("construct_print_parse", class, "the re-parsed module differs structurally from the constructed one", det)
 		return
 	}
-	if c.tier == "thorough" {
+	if c.tier == "thorough" && c03LLVMCheckable(text, det) {
 		if _, err := exec.LookPath("llvm-as"); err == nil {
 			cmd := exec.Command("llvm-as", "-o", "/dev/null", "-")
 			cmd.Stdin = strings.NewReader(text)
@@ -772,6 +802,42 @@ func c03Check(c *config, m *ir.Module, det map[string]interface{}, class string,
 	if sample {
 		o.Sample(map[string]interface{}{"printed_prefix": text[:min(300, len(text))]})
 	}
+}
+
+// c03LLVMCheckable: the construction program is one LLVM's verifier can be asked about.  The instruction
+// generator (shared with C06) puts every instruction into one block, so a phi has no predecessor to name, and
+// its type generator nests scalable vectors in arrays and structs, which LLVM 14 has no size for: such programs
+// are well-typed for the library's constructors but are not valid LLVM, so llvm-as is not consulted on them.
+func c03LLVMCheckable(text string, det map[string]interface{}) bool {
+	if ops, ok := det["ops"].([]string); ok {
+		for _, op := range ops {
+			if strings.EqualFold(op, "phi") {
+				return false
+			}
+		}
+	}
+	var stack []byte
+	for i := 0; i < len(text); i++ {
+		switch text[i] {
+		case '[', '{':
+			stack = append(stack, text[i])
+		case ']', '}':
+			if len(stack) > 0 {
+				stack = stack[:len(stack)-1]
+			}
+		case '\n':
+			stack = stack[:0]
+		case '<':
+			if strings.HasPrefix(text[i:], "<vscale") {
+				for _, b := range stack {
+					if b == '[' || b == '{' {
+						return false
+					}
+				}
+			}
+		}
+	}
+	return true
 }
 
 // debugging aid: first differing line of two identity dumps
